@@ -1604,6 +1604,33 @@ impl<'a> G<'a> {
                 );
                 out.push(E::Assign(bx(id(&name)), None, bx(E::Fn(vec![FnArg { pat: Pat::Id(n, None), default: None, variadic: false }], None, vec![body]))));
                 out.push(E::Print(vec![E::Call(bx(id(&name)), vec![(E::Int(self.s.below(6) as i64), false)])]));
+                if self.s.chance(60) {
+                    // recursion combined with optional arguments and a captured value: the function's
+                    // reference to itself, its defaults and its captures share one capture list
+                    self.feat("recursion-with-defaults");
+                    let name = self.fresh("rec");
+                    let (n, acc, step) = (self.fresh("a"), self.fresh("a"), self.fresh("a"));
+                    let k = self.fresh("k");
+                    let with_capture = self.s.chance(50);
+                    let two_defaults = self.s.chance(50);
+                    if with_capture {
+                        out.push(E::Assign(bx(id(&k)), None, bx(E::Int(1 + self.s.below(3) as i64))));
+                    }
+                    let dec = if with_capture { id(&k) } else { E::Int(1) };
+                    let mut args = vec![(E::Bin(Op::Sub, bx(id(&n)), bx(dec)), false), (E::Bin(Op::Add, bx(id(&acc)), bx(id(&n))), false)];
+                    let mut params = vec![FnArg { pat: Pat::Id(n.clone(), None), default: None, variadic: false }, FnArg { pat: Pat::Id(acc.clone(), None), default: Some(E::Int(self.s.below(4) as i64 * 100)), variadic: false }];
+                    let mut tail = id(&acc);
+                    if two_defaults {
+                        params.push(FnArg { pat: Pat::Id(step.clone(), None), default: Some(E::Int(1 + self.s.below(3) as i64)), variadic: false });
+                        args.push((id(&step), false));
+                        tail = E::Bin(Op::Mul, bx(id(&acc)), bx(id(&step)));
+                    }
+                    let body = E::If(vec![(E::Bin(Op::Le, bx(id(&n)), bx(E::Int(0))), vec![tail])], Some(vec![E::Call(bx(id(&name)), args)]));
+                    out.push(E::Assign(bx(id(&name)), None, bx(E::Fn(params, None, vec![body]))));
+                    out.push(E::Print(vec![E::Call(bx(id(&name)), vec![(E::Int(0), false)])]));
+                    out.push(E::Print(vec![E::Call(bx(id(&name)), vec![(E::Int(1 + self.s.below(4) as i64), false)])]));
+                    out.push(E::Print(vec![E::Call(bx(id(&name)), vec![(E::Int(1 + self.s.below(4) as i64), false), (E::Int(7), false)])]));
+                }
             }
             2 => {
                 // capture by copy: reassign after capture; shared list through capture
@@ -1726,6 +1753,31 @@ impl<'a> G<'a> {
                 let piped = if self.s.chance(30) { E::Pipe(bx(piped), bx(id(&f))) } else { piped };
                 out.push(E::Assign(bx(id(&r)), None, bx(piped)));
                 out.push(E::Print(vec![id(&r)]));
+                if self.s.chance(60) {
+                    // piping into a function reached through `.`: the container must arrive as `self`
+                    self.feat("piped-method-call");
+                    let o = self.fresh("o");
+                    let (a, b) = (self.fresh("a"), self.fresh("a"));
+                    let total = self.num(1);
+                    let m = E::Map(vec![
+                        ("total".into(), total),
+                        (
+                            "add".into(),
+                            E::Fn(
+                                vec![FnArg { pat: Pat::Id(a.clone(), None), default: None, variadic: false }, FnArg { pat: Pat::Id(b.clone(), None), default: Some(E::Int(0)), variadic: false }],
+                                None,
+                                vec![E::Bin(Op::Add, bx(E::Bin(Op::Add, bx(E::Dot(bx(id("self")), "total".into())), bx(id(&a)))), bx(id(&b)))],
+                            ),
+                        ),
+                    ]);
+                    out.push(E::Assign(bx(id(&o)), None, bx(m)));
+                    let x = E::Int(self.s.below(9) as i64);
+                    let target = E::Dot(bx(id(&o)), "add".into());
+                    let piped = if self.s.chance(50) { E::Pipe(bx(x), bx(E::Call(bx(target), vec![(E::Int(1 + self.s.below(5) as i64), false)]))) } else { E::Pipe(bx(x), bx(target)) };
+                    let r2 = self.fresh("p");
+                    out.push(E::Assign(bx(id(&r2)), None, bx(piped)));
+                    out.push(E::Print(vec![id(&r2)]));
+                }
             }
             6 => {
                 // closure factory
